@@ -35,6 +35,8 @@ func init() {
 		except(p, "C16.1", c, "by the time the compact messages are removed from the header, everything that can reject the request has succeeded (all attributes parsed, encoded and inserted into the new heap and index); "+
 			"the remaining steps encode a fixed-size attribute-info message, serialise the already built structures and re-add an 18-byte message to a header that just lost at least as many bytes; they fail only through file I/O")
 	}
+	except(p, "C16.1", "hdf5.DatasetWriter.WriteAttribute#error-return(core.ParseAttributeInfoMessage)#after-mutation",
+		"the message parsed here is the Attribute Info message this very call encoded into the cached header (EncodeAttributeInfoMessage in transitionToDenseAttributes); the parse can fail only on an internal inconsistency of the library, never because a request was rejected, and returning that error is preferable to silently keeping a stale 'no dense storage' state")
 	except(p, "C16.1", "hdf5.FileWriter.CreateHardLink#error-return(hdf5.FileWriter.linkToParent)#after-mutation",
 		"rollback path: the reference count is decremented and the header rewritten before this return (pairing checked by C16.2)")
 }
